@@ -20,6 +20,16 @@ func Equal(a Value, b Value) bool {
 	if a.Format().IsList() {
 		return reflect.DeepEqual(a.Value(), b.Value())
 	}
+	if abits, isBits := a.(Bits); isBits {
+		if bbits, isBits := b.(Bits); isBits {
+			// the set of positions is the value, labels are there for display
+			return abits.Positions == bbits.Positions
+		}
+	}
+	if _, hasOrder := a.(Comparable); !hasOrder {
+		// empty, any
+		return reflect.DeepEqual(a.Value(), b.Value())
+	}
 	return a.(Comparable).Compare(b.(Comparable)) == 0
 }
 
